@@ -686,16 +686,65 @@ func checkEmptyGuard(r *Run, vm *VisitorModel) {
 		inputParam = info.Defs[pcx.Type.Params.List[0].Names[1]]
 	}
 	trimmed := map[types.Object]bool{}
+	// trimChain: e is the value of root put through functions of the strings.Trim family only — one of them TrimSpace —
+	// directly or inside a helper of the package. Such a chain maps every blank input to the empty string.
+	var trimChain func(fd *ast.FuncDecl, e ast.Expr, root types.Object, depth int) (reaches, space bool)
+	trimChain = func(fd *ast.FuncDecl, e ast.Expr, root types.Object, depth int) (bool, bool) {
+		e = ast.Unparen(e)
+		if depth > 6 {
+			return false, false
+		}
+		switch x := e.(type) {
+		case *ast.Ident:
+			if info.Uses[x] == root {
+				return true, false
+			}
+			if def := resolveLocalCopy(info, fd.Body, x); def != ast.Expr(x) {
+				return trimChain(fd, def, root, depth+1)
+			}
+		case *ast.CallExpr:
+			fn := calleeOf(info, x)
+			if fn == nil || len(x.Args) == 0 {
+				return false, false
+			}
+			full := funcFullName(fn)
+			if strings.HasPrefix(full, "strings.Trim") {
+				ok, sp := trimChain(fd, x.Args[0], root, depth+1)
+				return ok, sp || full == "strings.TrimSpace"
+			}
+			if hd := decls[declKeyOf(fn)]; hd != nil && hd.Body != nil && fn.Pkg() == vm.pkg.Types && len(x.Args) == 1 && hd.Type.Params != nil && len(hd.Type.Params.List) == 1 && len(hd.Type.Params.List[0].Names) == 1 {
+				hp := info.Defs[hd.Type.Params.List[0].Names[0]]
+				all, allSpace, n := true, true, 0
+				ast.Inspect(hd.Body, func(m ast.Node) bool {
+					if _, isLit := m.(*ast.FuncLit); isLit {
+						return false
+					}
+					if rs, ok := m.(*ast.ReturnStmt); ok {
+						n++
+						if len(rs.Results) != 1 {
+							all = false
+							return true
+						}
+						ok, sp := trimChain(hd, rs.Results[0], hp, depth+1)
+						all = all && ok
+						allSpace = allSpace && sp
+					}
+					return true
+				})
+				if all && n > 0 {
+					ok, sp := trimChain(fd, x.Args[0], root, depth+1)
+					return ok, sp || allSpace
+				}
+			}
+		}
+		return false, false
+	}
 	ast.Inspect(pcx.Body, func(n ast.Node) bool {
 		if as, ok := n.(*ast.AssignStmt); ok && len(as.Lhs) == 1 && len(as.Rhs) == 1 {
-			if call, ok := as.Rhs[0].(*ast.CallExpr); ok {
-				if fn := calleeOf(info, call); fn != nil && funcFullName(fn) == "strings.TrimSpace" && len(call.Args) == 1 {
-					if a, ok := call.Args[0].(*ast.Ident); ok && info.Uses[a] == inputParam {
-						if id, ok := as.Lhs[0].(*ast.Ident); ok {
-							if o := info.Defs[id]; o != nil {
-								trimmed[o] = true
-							}
-						}
+			if reaches, space := trimChain(pcx, as.Rhs[0], inputParam, 0); reaches && space {
+				if id, ok := as.Lhs[0].(*ast.Ident); ok {
+					if o := info.Defs[id]; o != nil {
+						trimmed[o] = true
 					}
 				}
 			}
